@@ -12,6 +12,8 @@ CONSTANTS Loop = "%s"
  PromptEcho = %s
  Notifs = %d
  Pre = %s
+ SplitEcho = %s
+ IdFrom = "%s"
  Policies = {"now", "late", "never"}
 INVARIANTS TypeOK OwnReply NoLoss
 %s
@@ -19,8 +21,8 @@ CHECK_DEADLOCK FALSE
 """
 
 
-def rl_cfg(spec, loop, echo, n, prompt, extra, notifs=0, pre=False):
-    return RL_CFG % (spec, loop, "TRUE" if echo else "FALSE", n, "TRUE" if prompt else "FALSE", notifs, "TRUE" if pre else "FALSE", extra)
+def rl_cfg(spec, loop, echo, n, prompt, extra, notifs=0, pre=False, split=False, idfrom="reply"):
+    return RL_CFG % (spec, loop, "TRUE" if echo else "FALSE", n, "TRUE" if prompt else "FALSE", notifs, "TRUE" if pre else "FALSE", "TRUE" if split else "FALSE", idfrom, extra)
 
 
 def notifications(ctx, thorough, rng):
@@ -110,6 +112,39 @@ def readloop(ctx, thorough):
             raise ToolError("NcReadLoopScn (Pre) failed:\n" + r["stdout"][-1500:])
         fine += r["scn"]
     ctx.notes["readloop_behaviours_with_prefix_token"] = len(fine)
+    # the echo of a request in two pieces (its head carries the request's message-id), a late reply may be read in between: the
+    # model with the id taken from rpc-reply start tags only (fix 2e0bedd) must hold, with "the first message-id attribute in the
+    # buffer" it must be rejected; behaviours are sampled by TLC's simulator (the exhaustive set has millions)
+    r = ctx.tlc("MCNcReadLoop", cfg="rl.cfg", files={"rl.cfg": rl_cfg("Spec", "v2", True, 3 if thorough else 2, False, "PROPERTY Done", split=True)}, workers=8, timeout=1500)
+    if r["violated"] or not r["ok"]:
+        ctx.violation("C08:model:NcReadLoop-invariant", "NcReadLoop.tla (split echo, id from rpc-reply start tags) violates its properties:\n" + r["stdout"][-2500:], {"kind": "model"})
+        return
+    r = ctx.tlc("MCNcReadLoop", cfg="rl.cfg", files={"rl.cfg": rl_cfg("Spec", "v2", True, 2, False, "", split=True, idfrom="any")}, workers=8, timeout=600)
+    if not r["violated"]:
+        raise ToolError("NcReadLoop.tla no longer rejects taking the message-id from anywhere in the buffer: the model lost its teeth")
+    r = ctx.tlc("NcReadLoopScn", cfg="rls.cfg", files={"rls.cfg": rl_cfg("HSpec", "v2", True, 2, False, "CONSTRAINT Emit", split=True)}, workers=1,
+                simulate="num=%d" % (12000 if thorough else 1500), depth=80, timeout=1500)
+    seen, split = set(), []
+    for s2 in r["scn"]:
+        k = json.dumps(s2, sort_keys=True)
+        if k not in seen:
+            seen.add(k)
+            split.append(s2)
+
+    def between(s2):
+        for e in s2["h"]:
+            if e["a"] == "read":
+                ks = [(t["k"], t["i"]) for t in e["toks"]]
+                heads = [i for k2, i in ks if k2 == "rpch"]
+                if heads and any(k2 in ("hdr", "body", "end") and i != heads[-1] for k2, i in ks) and not any(k2 == "rpc" and i == heads[-1] for k2, i in ks):
+                    return True
+        return False
+    hot = [s2 for s2 in split if between(s2)]
+    cold = [s2 for s2 in split if not between(s2)]
+    if not hot:
+        raise ToolError("the simulator produced no behaviour with a reply between the two pieces of an echo (%d behaviours)" % len(split))
+    ctx.notes["readloop_split_echo"] = {"sampled": len(split), "with_a_reply_between_the_pieces": len(hot)}
+    fine2 = hot[:(2000 if thorough else 150)] + cold[:(400 if thorough else 50)]
     k1 = [s for s in scns if "v1" in s["kills"]]
     k0 = [s for s in scns if "v0" in s["kills"] and "v1" not in s["kills"]]
     rest = [s for s in scns if not s["kills"]]
@@ -129,6 +164,11 @@ def readloop(ctx, thorough):
             d2 = dict(d)
             d2["version"] = ("1.1", "1.0")[i % 2]
             out.append(d2)
+    for i, s2 in enumerate(fine2):
+        d = dict(s2)
+        d["version"] = ("1.0", "1.1")[i % 2]
+        d["burst"] = i % 4 >= 2
+        out.append(d)
     for i, s2 in enumerate(fine):
         for ver in ("1.0", "1.1"):
             d = dict(s2)
